@@ -126,7 +126,12 @@ func zzC09Growth(nrkom, stage, last, kind int) {
 	for i := 1; i <= 2 && i < nrkom; i++ {
 		vAssert("C09.growth.dead_mass_at_most_organ_mass", l.DGORG[i]*g.DT.Num <= worgOld[i]+1e-9)
 	}
-	vAssert("C09.growth.crop_n_content_loses_dead_leaf_and_stem_n_only", vNear(g.PESUM, pesumOld-0.7*GEHALT*(l.DGORG[1]+l.DGORG[2])*g.DT.Num, 1e-9))
+	if !(kind == 2 && stage >= 4 && g.INTWICK.Index == 0) {
+		// (a permanent crop that is cut and sprouts again additionally loses the N of the harvested organs)
+		vAssert("C09.growth.crop_n_content_loses_dead_leaf_and_stem_n_only", vNear(g.PESUM, pesumOld-0.7*GEHALT*(l.DGORG[1]+l.DGORG[2])*g.DT.Num, 1e-9))
+	} else {
+		vCover("C09.growth.cover_regrowth_after_cut")
+	}
 	vAssert("C09.growth.root_mass_not_negative", g.WUMAS >= 0 && g.WUMAS == g.WORG[0])
 	vAssert("C09.growth.assimilate_pool_not_negative", g.ASPOO >= 0)
 	vAssert("C09.growth.stage_index_not_raised_here", g.INTWICK.Index <= stage)
